@@ -8,7 +8,11 @@ overridden by a stub raising HarnessError, so nothing can fall through to the C 
 """
 import z3
 
-from .core import HarnessError, SymBool, cur, fork
+from .core import HarnessError, SymBool, cur, fork, Ctx
+
+
+def Ctx_cur():
+    return Ctx.cur
 
 SENTINEL = "\x00⟦SYMSTR⟧\x00"
 
@@ -89,7 +93,6 @@ def as_z3(b):
 
 
 class SymStr(str):
-    CONST_HASH = False  # harnesses that key dictionaries by symbolic strings switch this on (see hash)
 
     def __new__(cls, items):
         o = str.__new__(cls, SENTINEL)
@@ -155,11 +158,29 @@ class SymStr(str):
         return len(self.items)
 
     def __hash__(self):
-        if SymStr.CONST_HASH:
-            return 0x5EED
+        """Dictionary/set keys with symbolic characters: equal strings must hash equally, so the hash of a symbolic
+        string is decided by forking on its equality with every string hashed earlier on this path (a registry kept by
+        the explorer); a string equal to none of them gets a fresh hash.  Concrete strings hash like `str` so they mix
+        with plain keys.  (A *plain* str key that never went through this method is invisible to the registry: harnesses
+        keep such dictionaries concrete or lift their keys; the per-path differential guards the rest.)"""
         if self.concrete():
-            return hash("".join(self.items))
-        raise HarnessError("hash of a symbolic string (dictionary keys must stay concrete)")
+            plain = "".join(self.items)
+            h = hash(plain)
+            ex = Ctx_cur()
+            if ex is not None and plain not in ex.hash_plain:
+                ex.hash_plain[plain] = h
+                ex.hash_registry.append((self, h))
+            return h
+        ex = cur()
+        for t, h in ex.hash_registry:
+            if t is self:
+                return h
+            if len(t.items) == len(self.items) and fork(self.eq_expr(t)):
+                return h
+        ex.hash_counter += 1
+        h = 0x5EED0000 + ex.hash_counter
+        ex.hash_registry.append((self, h))
+        return h
 
     def __str__(self):
         return self
